@@ -2,14 +2,18 @@ package chain
 
 import (
 	"bytes"
+	"crypto/sha256"
 	"fmt"
 	"math/big"
 	"sort"
 	"strings"
+	"sync"
+	"sync/atomic"
 
 	pb "github.com/xuperchain/xupercore/bcs/ledger/xledger/xldgpb"
 
 	"verif/core"
+	"verif/engine/vkv"
 	"verif/world"
 )
 
@@ -674,28 +678,65 @@ type CrashOracle struct {
 	base   map[string]map[string][]byte
 	root   string
 	viol   []core.Violation
-	Images int
-	Writes int
+	active bool
+}
+
+// CrashStats counts what the crash oracle judged (process-wide, all scenarios).
+var CrashStats struct {
+	Events    int64 // transitions whose write log was enumerated
+	Writes    int64 // storage writes (batches) those transitions issued
+	Images    int64 // crash images reopened and judged (every prefix, 0..len)
+	MidImages int64 // of these, strictly inside an event (0 < n < len): the non-trivial ones
+	distinct  sync.Map
+	Distinct  int64 // distinct non-trivial images: digest of (event kind, write prefix with store names normalised)
+}
+
+func noteMidImage(kind, root string, log []vkv.Write, n int) {
+	h := sha256.New()
+	fmt.Fprintf(h, "%s|%d|", kind, n)
+	for _, w := range log[:n] {
+		fmt.Fprintf(h, "%s|%v|", strings.TrimPrefix(w.Store, root), w.Batch)
+		for _, op := range w.Ops {
+			fmt.Fprintf(h, "%v|", op)
+		}
+	}
+	var d [32]byte
+	copy(d[:], h.Sum(nil))
+	if _, dup := CrashStats.distinct.LoadOrStore(d, struct{}{}); !dup {
+		atomic.AddInt64(&CrashStats.Distinct, 1)
+	}
 }
 
 func (o *CrashOracle) Before(i *Inst, ev string) {
+	// only the transition that ends this execution: the replayed prefix was
+	// judged when it was the end of its own history
+	o.active = i.lastEvent(false)
+	if !o.active {
+		return
+	}
 	o.base = i.W.Space.Snapshot()
 	o.root = i.W.Space.Root()
 	i.W.Space.StartLog()
 }
 
 func (o *CrashOracle) After(i *Inst, ev string, obs string) {
+	if !o.active {
+		return
+	}
 	log := i.W.Space.Log()
-	o.Writes += len(log)
 	if ev == "restart" || ev == "query" {
 		return
 	}
+	atomic.AddInt64(&CrashStats.Events, 1)
+	atomic.AddInt64(&CrashStats.Writes, int64(len(log)))
 	for n := 0; n <= len(log); n++ {
-		if n == len(log) && n > 0 {
-			// the complete image is the ordinary post-state (also checked: a crash right after the last write)
-		}
+		// n == len(log): the complete image (a crash right after the last write) is judged too
 		img := vkvFromImage(o.root, o.base, log, n)
-		o.Images++
+		atomic.AddInt64(&CrashStats.Images, 1)
+		if n > 0 && n < len(log) {
+			atomic.AddInt64(&CrashStats.MidImages, 1)
+			noteMidImage(evKind(ev), o.root, log, n)
+		}
 		for _, v := range checkImage(i, img) {
 			v.Key += "." + evKind(ev)
 			v.Summary = fmt.Sprintf("crash after write %d of %d during %s (%s): %s", n, len(log), ev, describeWrites(log, n), v.Summary)
